@@ -530,6 +530,9 @@ func runMapW(vm *otto.Otto, c *caseT) (M, error) {
 			if ev.IsNil() {
 				return M{"k": "nilval", "of": c.K}
 			}
+			if in, ok := ev.Interface().(*bridge.Inner); ok && in.Tags == nil && in.Sizes == nil {
+				return M{"k": "innerval", "N": bridge.ZOfInt64(int64(in.N))}
+			}
 			return M{"k": "nonnil"}
 		}
 		return bridge.ProjectAs(ev, et)
